@@ -85,6 +85,8 @@ pub type Diagnostics = HashMap<Locator, Vec<Diagnostic>>;
 pub struct Workspace {
     docs: HashMap<Locator, String>,
     errors: Option<Vec<(Span, String)>>,
+    /// The documents closed since the last diagnostics.
+    closed: Vec<Locator>,
 }
 
 impl Workspace {
@@ -99,6 +101,7 @@ impl Workspace {
     pub fn close(&mut self, p: DidCloseTextDocumentParams) -> anyhow::Result<Locator> {
         let loc = Locator::from(p.text_document.uri);
         self.docs.remove(&loc);
+        self.closed.push(loc.clone());
         Ok(loc)
     }
 
@@ -192,8 +195,10 @@ impl Workspace {
         let mut diags = self
             .docs
             .keys()
+            .chain(self.closed.iter())
             .map(|loc| (loc.clone(), Default::default()))
             .collect::<Diagnostics>();
+        self.closed.clear();
         let errs = self.errors.take().unwrap_or_default();
         for (span, msg) in errs {
             let diag = self.diagnostic(&span, msg)?;
